@@ -5,9 +5,9 @@ import vlib
 THEOREMS = ["Slock.C20." + t for t in (
     # segmented deque (server/queue.go): proved for all states / parameters / sequences
     "deque_new deque_push deque_pushLeft deque_pushLeft_full deque_pop deque_popRight deque_head_tail_len "
-    "deque_run deque_run_from_new "
+    "deque_reset_rellac deque_freeQueue deque_run deque_run_from_new "
     # partial (concrete instance only) and witnesses of non-refinement
-    "deque_maintenance_partial pushLeft_refuses_at_origin shrink_breaks_len "
+    "deque_maintenance_partial pushLeft_refuses_at_origin shrink_breaks_len resize_leaves_orphan_node "
     "restructuring_with_spare_node_breaks_push long_restructuring_then_push_ok long_restructuring_spare_node_ok "
     # lock.go containers
     "ring_refines_fifo prio_refines_stable_priority_queue stable_insert_spec holder_push holder_pop_observers "
